@@ -67,6 +67,12 @@ class C07(Prop):
                 ddof = rng.choice([0.0, 0.5, 1.0])
                 dd = enc_vals(et, [ddof])[0]
                 yield mk_num_case(rng.choice(["weighted_var", "weighted_std"]), et, [(shape, data, la), (shape, ws, lb)], dd, ddof=ddof)
+                if nd >= 2 and n >= 4:
+                    # both operands contiguous in memory but in different non-row-major orders (F order against an inverted
+                    # axis, two different axis permutations): data and weights are still paired by LOGICAL index
+                    from ..layouts import contig_variant
+                    yield mk_num_case(rng.choice(["weighted_var", "weighted_std"]), et,
+                                      [(shape, data, contig_variant(shape, rng)), (shape, ws, contig_variant(shape, rng))], dd, ddof=ddof)
                 p = rng.range(0, 8)
                 yield mk_num_case("central_moment", et, [(shape, data, la)], "%d" % p, order=p)
                 yield mk_num_case("central_moments", et, [(shape, data, la)], "%d" % p, order=p)
